@@ -344,7 +344,9 @@ def r_id_discipline(ctx: Ctx, rule: str):
             if n.op != "assign" or not isinstance(a, (ast.Assign, ast.AnnAssign)) or getattr(a, "value", None) is None:
                 return False
             tg = a.targets if isinstance(a, ast.Assign) else [a.target]
-            return all(isinstance(t, ast.Name) for t in tg) and ctx.path_at(n, a.value) == NUM
+            from ..cfg import strip_cast as _strip
+            # a direct read of the field (not the call of a helper that reads it: the read inside the helper is the site)
+            return all(isinstance(t, ast.Name) for t in tg) and isinstance(_strip(a.value), ast.Attribute) and ctx.path_at(n, a.value) == NUM
 
         reads = ctx.nodes(f, counter_read)
         rsites = ctx.distinct_sites(reads)
@@ -431,9 +433,11 @@ def r_instance_state(ctx: Ctx, rule: str):
             ok = None
             if re.fullmatch(r"len\((cls|self)\._pools\)-1", txt):
                 ok = bool(apps) and dominated_by_completion(g, apps, r)
-            elif re.fullmatch(r"len\((cls|self)\._pools\)", txt):
-                ok = bool(apps) and all(not can_follow(a, r) for a in apps) and all(can_follow(r, a) or True for a in apps)
-                ok = ok and False  # value before append would have to be captured first; not an idiom this code uses
+            elif re.fullmatch(r"len\((cls|self)\._pools\)", txt) and isinstance(v, ast.Name):
+                # `idx = len(pools); pools.append(pool); return idx`: the length captured BEFORE the append is the new index
+                caps = [m for m in g.nodes if m.pred and m.op == "assign" and any(isinstance(t, ast.Name) and t.id == v.id for t in (m.ast.targets if isinstance(m.ast, ast.Assign) else [m.ast.target]))]
+                ok = bool(apps) and bool(caps) and all(not can_follow(a, c_) for a in apps for c_ in caps) and dominated_by_completion(g, apps, r) and \
+                    len(ctx.vals.bindings(f, v.id) or []) == 1
             rep.ob(rule, "_add_pool returns the index at which the pool was appended (distinct per pool)", ok, node=r)
     for f in ctx.pool_funcs("__init__"):
         if f.cls is not base:
